@@ -2,6 +2,7 @@ package fam
 
 import (
 	"fmt"
+	"strings"
 
 	"verif/sim/core"
 )
@@ -42,6 +43,9 @@ type UserSpec struct {
 	Team      []UserSpec   `json:"team,omitempty"`
 	Languages []LangSpec   `json:"languages,omitempty"`
 	Friends   []UserSpec   `json:"friends,omitempty"`
+	// BackRef: as a team member this record's Manager, as a friend its Friends,
+	// point back at the parent record (a cycle through the parent)
+	BackRef bool `json:"back_ref,omitempty"`
 }
 
 func (s *CompanySpec) Build() *Company {
@@ -76,9 +80,17 @@ func (s LangSpec) Build() Language { return Language{Code: s.Code, Name: s.Name}
 type Shared struct {
 	Companies map[uint]*Company
 	Friends   map[uint]*User
+	// new (zero-key) records shared by name: `c := &Company{Name: "x"}` referenced by several parents
+	NewCompanies map[string]*Company
+	NewFriends   map[string]*User
 }
 
-func NewShared() *Shared { return &Shared{Companies: map[uint]*Company{}, Friends: map[uint]*User{}} }
+// SharedNewPrefix marks, by name, new records that several parents share.
+const SharedNewPrefix = "shared-new-"
+
+func NewShared() *Shared {
+	return &Shared{Companies: map[uint]*Company{}, Friends: map[uint]*User{}, NewCompanies: map[string]*Company{}, NewFriends: map[string]*User{}}
+}
 
 func (s *UserSpec) Build() *User { return s.BuildShared(nil) }
 
@@ -94,6 +106,12 @@ func (s *UserSpec) BuildShared(sh *Shared) *User {
 		} else {
 			sh.Companies[u.Company.ID] = u.Company
 		}
+	} else if sh != nil && u.Company != nil && strings.HasPrefix(u.Company.Name, SharedNewPrefix) {
+		if c, ok := sh.NewCompanies[u.Company.Name]; ok {
+			u.Company = c
+		} else {
+			sh.NewCompanies[u.Company.Name] = u.Company
+		}
 	}
 	u.Manager = s.Manager.BuildShared(nil)
 	u.Account = s.Account.Build()
@@ -106,6 +124,11 @@ func (s *UserSpec) BuildShared(sh *Shared) *User {
 	for i := range s.Team {
 		u.Team = append(u.Team, *s.Team[i].BuildShared(nil))
 	}
+	for i := range s.Team {
+		if s.Team[i].BackRef {
+			u.Team[i].Manager = u
+		}
+	}
 	for _, l := range s.Languages {
 		u.Languages = append(u.Languages, l.Build())
 	}
@@ -117,6 +140,15 @@ func (s *UserSpec) BuildShared(sh *Shared) *User {
 			} else {
 				sh.Friends[f.ID] = f
 			}
+		} else if sh != nil && strings.HasPrefix(f.Name, SharedNewPrefix) {
+			if g, ok := sh.NewFriends[f.Name]; ok {
+				f = g
+			} else {
+				sh.NewFriends[f.Name] = f
+			}
+		}
+		if s.Friends[i].BackRef {
+			f.Friends = append(f.Friends, u)
 		}
 		u.Friends = append(u.Friends, f)
 	}
@@ -226,10 +258,16 @@ func (g *Gen) User(depth int) UserSpec {
 			u.Manager = &m
 		}
 		for i, n := 0, g.small(); i < n; i++ {
-			u.Team = append(u.Team, g.User(depth-1))
+			t := g.User(depth - 1)
+			if t.Manager == nil && g.R.Chance(20) {
+				t.BackRef = true
+			}
+			u.Team = append(u.Team, t)
 		}
 		for i, n := 0, g.small(); i < n; i++ {
-			u.Friends = append(u.Friends, g.User(depth-1))
+			f := g.User(depth - 1)
+			f.BackRef = g.R.Chance(20)
+			u.Friends = append(u.Friends, f)
 		}
 	}
 	return u
@@ -315,4 +353,25 @@ func ShrinkUser(u UserSpec) []UserSpec {
 		add(func(v *UserSpec) { v.ID = 0 })
 	}
 	return out
+}
+
+// Repoint makes the back references held by moved's team members and friends
+// (see UserSpec.BackRef) point at moved instead of at orig, the record it was
+// copied from (value slices hold copies of the built records).
+func Repoint(orig, moved *User) {
+	for i := range moved.Team {
+		if moved.Team[i].Manager == orig {
+			moved.Team[i].Manager = moved
+		}
+	}
+	for _, f := range moved.Friends {
+		if f == nil {
+			continue
+		}
+		for j := range f.Friends {
+			if f.Friends[j] == orig {
+				f.Friends[j] = moved
+			}
+		}
+	}
 }
